@@ -12,8 +12,14 @@ Import ListNotations.
 Open Scope N_scope.
 
 Section Brk.
+(* [h] is what stands in the place of a line feed: CR (alone or followed by LF) or NEL *)
+Variable h : N.
 Variable nl : str.
-Hypothesis Hnl : nl = [13; 10] \/ nl = [13].
+Hypothesis Hh : h = 13 \/ h = 133.
+Hypothesis Hnl : (nl = [13; 10] /\ h = 13) \/ nl = [h].
+
+(* closed side conditions about [h] *)
+Ltac hs := destruct Hh as [Eh|Eh]; rewrite Eh; reflexivity.
 
 Notation X := (expand_nl nl).
 
@@ -25,9 +31,9 @@ Definition R (s s' : stream) : Prop :=
   s_rest s' = X (s_rest s) /\ s_col s' = s_col s /\ (s_idx s' =? 0) = (s_idx s =? 0) /\ okbuf (s_rest s).
 
 (* characters seen at corresponding positions *)
-Definition C (c c' : N) : Prop := c' = if c =? 10 then 13 else c.
+Definition C (c c' : N) : Prop := c' = if c =? 10 then h else c.
 
-Lemma C_cases c c' : C c c' -> (c = 10 /\ c' = 13) \/ (c' = c /\ c <> 10).
+Lemma C_cases c c' : C c c' -> (c = 10 /\ c' = h) \/ (c' = c /\ c <> 10).
 Proof.
   unfold C. destruct (c =? 10) eqn:E; intros ->; [left | right].
   - apply N.eqb_eq in E. auto.
@@ -53,8 +59,8 @@ Definition R1 {A} (x x' : stream * A) : Prop := R (fst x) (fst x') /\ snd x = sn
 
 (* ------------------------------------------------------------------ facts about the expansion *)
 
-Lemma nl_head : exists t, nl = 13 :: t.
-Proof. destruct Hnl as [->| ->]; eauto. Qed.
+Lemma nl_head : exists t, nl = h :: t.
+Proof. destruct Hnl as [[-> ->]| ->]; eauto. Qed.
 
 Lemma X_cons c r : X (c :: r) = (if c =? 10 then nl else [c]) ++ X r.
 Proof. reflexivity. Qed.
@@ -68,13 +74,13 @@ Qed.
 Lemma X_length t : (length t <= length (X t))%nat.
 Proof.
   induction t as [|c t IH]; [cbn; lia|]. rewrite X_cons, app_length. cbn [length].
-  destruct (c =? 10); [|cbn [length]; lia]. destruct Hnl as [->| ->]; cbn [length]; lia.
+  destruct (c =? 10); [|cbn [length]; lia]. destruct Hnl as [[-> _]| ->]; cbn [length]; lia.
 Qed.
 
-Lemma X_no_lf t : nl = [13] -> ~ In 10 (X t).
+Lemma X_no_lf t : nl = [h] -> ~ In 10 (X t).
 Proof.
   intros E. induction t as [|c t IH]; [cbn; tauto|]. rewrite X_cons. intros H. apply in_app_or in H as [H|H]; [|auto].
-  destruct (c =? 10) eqn:Ec; [rewrite E in H; destruct H as [H|[]]; discriminate|].
+  destruct (c =? 10) eqn:Ec; [rewrite E in H; destruct H as [H|[]]; destruct Hh as [Eh|Eh]; rewrite Eh in H; discriminate|].
   destruct H as [H|[]]. apply N.eqb_neq in Ec. congruence.
 Qed.
 
@@ -97,7 +103,7 @@ Lemma peek0_sim s s' : R s s' -> sim (Cp s) (peek s 0) (peek s' 0).
 Proof.
   intros (Hr & _). unfold peek. destruct (s_rest s) as [|c r] eqn:E; cbn [nth_error sim]; [exact I|].
   rewrite Hr, X_cons. destruct nl_head as [t Ht].
-  exists (if c =? 10 then 13 else c). split; [|split; [reflexivity | eauto]].
+  exists (if c =? 10 then h else c). split; [|split; [reflexivity | eauto]].
   destruct (c =? 10); [rewrite Ht|]; reflexivity.
 Qed.
 
@@ -146,7 +152,7 @@ Proof.
   - inversion H; subst. exists [], x, l. repeat split; [constructor | exact Ex].
 Qed.
 
-Lemma count_X p : p 10 = false -> p 13 = false -> forall l n, count_while p l = Ok n -> count_while p (X l) = Ok n.
+Lemma count_X p : p 10 = false -> p h = false -> forall l n, count_while p l = Ok n -> count_while p (X l) = Ok n.
 Proof.
   intros H10 H13. induction l as [|x l IH]; intros n H; [discriminate|]. cbn [count_while] in H.
   rewrite X_cons. destruct (x =? 10) eqn:Ex.
@@ -158,7 +164,7 @@ Proof.
 Qed.
 
 (* what the callers of a count need *)
-Lemma count_sim p s s' n : p 10 = false -> p 13 = false -> R s s' -> count_while p (s_rest s) = Ok n ->
+Lemma count_sim p s s' n : p 10 = false -> p h = false -> R s s' -> count_while p (s_rest s) = Ok n ->
   count_while p (s_rest s') = Ok n /\ prefix s' n = prefix s n /\
   sim R (forward s n) (forward s' n).
 Proof.
@@ -171,15 +177,23 @@ Qed.
 
 (* ------------------------------------------------------------------ closed tests on LF / CR *)
 
-Ltac ceval :=
+Ltac ceval1 :=
   repeat match goal with
   | |- context [mem_N 10 ?T] => let b := eval vm_compute in (mem_N 10 T) in change (mem_N 10 T) with b
   | |- context [mem_N 13 ?T] => let b := eval vm_compute in (mem_N 13 T) in change (mem_N 13 T) with b
+  | |- context [mem_N 133 ?T] => let b := eval vm_compute in (mem_N 133 T) in change (mem_N 133 T) with b
   | |- context [N.eqb 10 ?k] => let b := eval vm_compute in (N.eqb 10 k) in change (N.eqb 10 k) with b
   | |- context [N.eqb 13 ?k] => let b := eval vm_compute in (N.eqb 13 k) in change (N.eqb 13 k) with b
+  | |- context [N.eqb 133 ?k] => let b := eval vm_compute in (N.eqb 133 k) in change (N.eqb 133 k) with b
+  | |- context [assoc 10 ?T] => let b := eval vm_compute in (assoc 10 T) in change (assoc 10 T) with b
+  | |- context [assoc 13 ?T] => let b := eval vm_compute in (assoc 13 T) in change (assoc 13 T) with b
+  | |- context [assoc 133 ?T] => let b := eval vm_compute in (assoc 133 T) in change (assoc 133 T) with b
   | |- context [is_end 10] => change (is_end 10) with false
   | |- context [is_end 13] => change (is_end 13) with false
+  | |- context [is_end 133] => change (is_end 133) with false
   end; cbn [negb andb orb].
+(* with the case split on [h] *)
+Ltac ceval := destruct Hh as [Eh|Eh]; rewrite ?Eh; ceval1.
 
 (* ------------------------------------------------------------------ skip loops *)
 
@@ -189,7 +203,7 @@ Proof.
   intros ? ? [? _]. assumption.
 Qed.
 
-Lemma skip_while_f_sim p : p 10 = false -> p 13 = false -> forall f1 f2 s s', (f1 <= f2)%nat -> R s s' ->
+Lemma skip_while_f_sim p : p 10 = false -> p h = false -> forall f1 f2 s s', (f1 <= f2)%nat -> R s s' ->
   sim R (skip_while_f f1 p s) (skip_while_f f2 p s').
 Proof.
   intros H10 H13. induction f1 as [|f1 IH]; intros f2 s s' Hf HR; [exact I|].
@@ -201,7 +215,7 @@ Proof.
     eapply sim_bind; [eapply forward_one; eassumption|]. intros s1 s1' HR1. apply IH; [lia | exact HR1].
 Qed.
 
-Lemma skip_while_sim p s s' : p 10 = false -> p 13 = false -> R s s' -> sim R (skip_while p s) (skip_while p s').
+Lemma skip_while_sim p s s' : p 10 = false -> p h = false -> R s s' -> sim R (skip_while p s) (skip_while p s').
 Proof. intros H10 H13 HR. apply skip_while_f_sim; [assumption | assumption | apply fuel_le; exact HR | exact HR]. Qed.
 
 (* ------------------------------------------------------------------ _scan_line_break *)
@@ -235,15 +249,28 @@ Proof.
   replace (13 =? c_cr) with true by reflexivity. unfold c_lf. rewrite Hy. reflexivity.
 Qed.
 
+Lemma lb_nel s' t0 : s_rest s' = 133 :: t0 ->
+  (if str_eqb (prefix s' 2) [c_cr; c_lf] then do s1 <- forward s' 2; Ok (s1, [c_lf])
+   else do s1 <- forward s' 1; Ok (s1, [c_lf])) =
+  Ok (mkS (s_idx s' + 1) (s_line s' + 1) 0 t0, [10]).
+Proof.
+  intros E. unfold prefix. rewrite E.
+  assert (Hs : str_eqb (firstn 2 (133 :: t0)) [c_cr; c_lf] = false) by (destruct t0; reflexivity).
+  rewrite Hs. cbn [forward]. unfold forward1. rewrite E.
+  replace (mem_N 133 in_forward_0) with true by reflexivity. reflexivity.
+Qed.
+
 Lemma scan_line_break_sim s s' : R s s' -> sim R1 (scan_line_break s) (scan_line_break s').
 Proof.
   intros HR. pose proof HR as (Hr & Hcol & Hi & Hok). unfold scan_line_break.
   eapply sim_bind; [apply peek0_sim; exact HR|]. intros c c' [Hc [r Er]].
   destruct (C_cases _ _ Hc) as [[-> ->]|[-> Hn]].
-  - (* a line feed against CR LF or CR *)
-    ceval.
+  - (* a line feed against CR LF, CR or NEL *)
     assert (Hrn : r <> []). { intros ->. destruct Hok as [_ H]. apply (H []). rewrite Er. reflexivity. }
     assert (Hok' : okbuf r) by (rewrite Er in Hok; eapply okbuf_tl; exact Hok).
+    assert (Hm : mem_N 10 in_scan_line_break_0 = true /\ mem_N h in_scan_line_break_0 = true).
+    { split; [reflexivity | hs]. }
+    destruct Hm as [Hm1 Hm2]. rewrite Hm1, Hm2.
     assert (Hs : (if str_eqb (prefix s 2) [c_cr; c_lf] then do s1 <- forward s 2; Ok (s1, [c_lf])
                   else do s1 <- forward s 1; Ok (s1, [c_lf])) =
                  Ok (mkS (s_idx s + 1) (s_line s + 1) 0 r, [10])).
@@ -252,22 +279,26 @@ Proof.
     rewrite Hs. cbn [sim].
     assert (Er0 : exists XR, XR = X r /\ s_rest s' = nl ++ XR) by (eexists; split; [reflexivity | rewrite Hr, Er, X_cons; reflexivity]).
     destruct Er0 as (XR & EX & Er').
-    destruct Hnl as [E|E].
+    assert (Hfin : forall i l, R (mkS (s_idx s + 1) (s_line s + 1) 0 r) (mkS (i + 1) l 0 XR)).
+    { intros i l. split; [|split; [|split]]; cbn [s_rest s_col s_idx]; rewrite ?idx_succ_nz; auto. }
+    destruct Hnl as [[E Eh]|E].
     + (* CR LF *)
       rewrite E in Er'. cbn [app] in Er'. rewrite (lb_crlf s' _ Er').
-      eexists. split; [reflexivity|]. split; [|reflexivity]. cbn [fst].
-      split; [|split; [|split]]; cbn [s_rest s_col s_idx]; rewrite ?idx_succ_nz; auto.
-    + (* CR alone: what follows is not a line feed *)
+      eexists. split; [reflexivity|]. split; [|reflexivity]. cbn [fst]. apply Hfin.
+    + (* CR or NEL alone: what follows is not a line feed *)
       assert (Hx : exists y t, XR = y :: t /\ y <> 10).
       { rewrite EX. destruct r as [|y r']; [congruence|]. pose proof (X_no_lf (y :: r') E) as Hno.
         destruct (X (y :: r')) as [|z t] eqn:Ez.
         - exfalso. rewrite X_cons in Ez. destruct (y =? 10); [rewrite E in Ez|]; discriminate.
         - exists z, t. split; [reflexivity|]. intros ->. apply Hno. left. reflexivity. }
       destruct Hx as (y & t0 & Ey & Hy).
-      assert (Er2 : s_rest s' = 13 :: y :: t0) by (rewrite Er', Ey, E; reflexivity).
-      rewrite (lb_cr s' y t0 Er2 Hy).
-      eexists. split; [reflexivity|]. split; [|reflexivity]. cbn [fst].
-      split; [|split; [|split]]; cbn [s_rest s_col s_idx]; rewrite ?idx_succ_nz; auto. congruence.
+      destruct Hh as [Eh|Eh].
+      * assert (Er2 : s_rest s' = 13 :: y :: t0) by (rewrite Er', Ey, E, Eh; reflexivity).
+        rewrite (lb_cr s' y t0 Er2 Hy).
+        eexists. split; [reflexivity|]. split; [|reflexivity]. cbn [fst]. rewrite <- Ey. apply Hfin.
+      * assert (Er2 : s_rest s' = 133 :: y :: t0) by (rewrite Er', Ey, E, Eh; reflexivity).
+        rewrite (lb_nel s' _ Er2).
+        eexists. split; [reflexivity|]. split; [|reflexivity]. cbn [fst]. rewrite <- Ey. apply Hfin.
   - (* any other character: the same branch *)
     assert (Hcr : c <> 13) by (rewrite Er in Hok; destruct Hok as [H _]; inversion H; assumption).
     assert (Hpre : str_eqb (prefix s' 2) [c_cr; c_lf] = false /\ str_eqb (prefix s 2) [c_cr; c_lf] = false).
@@ -284,7 +315,7 @@ Qed.
 (* ------------------------------------------------------------------ conditionals on a character *)
 
 Lemma sim_if_C {A} (Q : A -> A -> Prop) (t : N -> bool) c c' (a b a' b' : res A) :
-  C c c' -> t 13 = t 10 -> (t c = true -> sim Q a a') -> (t c = false -> sim Q b b') ->
+  C c c' -> t h = t 10 -> (t c = true -> sim Q a a') -> (t c = false -> sim Q b b') ->
   sim Q (if t c then a else b) (if t c' then a' else b').
 Proof.
   intros Hc Ht Ha Hb. destruct (C_cases _ _ Hc) as [[-> ->]|[-> _]].
@@ -301,11 +332,11 @@ Lemma stnt_f_sim : forall f1 f2 s s', (f1 <= f2)%nat -> R s s' ->
 Proof.
   induction f1 as [|f1 IH]; intros f2 s s' Hf HR; [exact I|]. destruct f2 as [|f2]; [lia|].
   cbn [scan_to_next_token_f].
-  eapply sim_bind; [apply skip_while_sim; [reflexivity | reflexivity | exact HR]|]. intros s1 s1' H1.
+  eapply sim_bind; [apply skip_while_sim; [reflexivity | hs | exact HR]|]. intros s1 s1' H1.
   speek H1 c c' Hc r Er.
   eapply sim_bind with (Q := R).
-  { apply (sim_if_C R (fun ch => ch =? c_hash)); [exact Hc | reflexivity | |].
-    - intros _. apply skip_while_sim; [reflexivity | reflexivity | exact H1].
+  { apply (sim_if_C R (fun ch => ch =? c_hash)); [exact Hc | hs | |].
+    - intros _. apply skip_while_sim; [reflexivity | hs | exact H1].
     - intros _. apply sim_ok. exact H1. }
   intros s2 s2' H2.
   eapply sim_bind; [apply scan_line_break_sim; exact H2|]. intros [s3 lb] [s3' lb'] [H3 Elb]. cbn [fst snd] in *. subst lb'.
@@ -318,7 +349,7 @@ Proof.
   eapply sim_bind with (Q := R).
   { destruct (s_idx s =? 0); [|apply sim_ok; exact HR].
     speek HR c c' Hc r Er.
-    apply (sim_if_C R (fun ch => ch =? c_bom)); [exact Hc | reflexivity | | intros _; apply sim_ok; exact HR].
+    apply (sim_if_C R (fun ch => ch =? c_bom)); [exact Hc | hs | | intros _; apply sim_ok; exact HR].
     intros Eb. apply N.eqb_eq in Eb. eapply forward_one; [exact HR | exact Er | rewrite Eb; discriminate]. }
   intros s0 s0' H0. apply stnt_f_sim; [apply fuel_le; exact H0 | exact H0].
 Qed.
@@ -332,8 +363,8 @@ Proof.
   cbn [plain_breaks_f]. speek HR c c' Hc r Er.
   destruct (C_cases _ _ Hc) as [[-> ->]|[-> Hn]].
   - ceval.
-    eapply sim_bind; [apply scan_line_break_sim; exact HR|]. intros [s1 lb] [s1' lb'] [H1 Elb]. cbn [fst snd] in *. subst lb'.
-    apply IH; [lia | exact H1].
+    all: eapply sim_bind; [apply scan_line_break_sim; exact HR|]; intros [s1 lb] [s1' lb'] [H1 Elb]; cbn [fst snd] in *; subst lb';
+      apply IH; [lia | exact H1].
   - destruct (mem_N c in_scan_plain_spaces_1); [|apply sim_ok; split; [exact HR | reflexivity]].
     destruct (c =? c_space).
     + eapply sim_bind; [eapply forward_one; eassumption|]. intros s1 s1' H1. apply IH; [lia | exact H1].
@@ -345,9 +376,9 @@ Lemma scan_plain_spaces_sim s s' b : R s s' -> sim R1 (scan_plain_spaces s b) (s
 Proof.
   intros HR. unfold scan_plain_spaces.
   destruct (count_while (fun ch => ch =? c_space) (s_rest s)) as [n|e] eqn:En; [|exact I]. cbn [bind].
-  destruct (count_sim _ s s' n eq_refl eq_refl HR En) as (En' & Hp & Hfw). rewrite En'. cbn [bind]. rewrite Hp.
+  match type of En with count_while ?p0 _ = _ => destruct (count_sim p0 s s' n eq_refl ltac:(hs) HR En) as (En' & Hp & Hfw) end. rewrite En'. cbn [bind]. rewrite Hp.
   eapply sim_bind; [exact Hfw|]. intros s1 s1' H1. speek H1 c c' Hc r Er.
-  apply (sim_if_C R1 (fun ch => b && mem_N ch in_scan_plain_spaces_0)); [exact Hc | reflexivity | |].
+  apply (sim_if_C R1 (fun ch => b && mem_N ch in_scan_plain_spaces_0)); [exact Hc | hs | |].
   - intros _.
     eapply sim_bind; [apply scan_line_break_sim; exact H1|]. intros [s2 lb] [s2' lb'] [H2 Elb]. cbn [fst snd] in *. subst lb'.
     eapply sim_bind; [apply plain_breaks_f_sim; [apply fuel_le; exact H2 | exact H2]|].
@@ -355,7 +386,7 @@ Proof.
   - intros _. destruct (nonempty (prefix s n)); apply sim_ok; (split; [exact H1 | reflexivity]).
 Qed.
 
-Lemma X_head c r : exists t, X (c :: r) = (if c =? 10 then 13 else c) :: t.
+Lemma X_head c r : exists t, X (c :: r) = (if c =? 10 then h else c) :: t.
 Proof. rewrite X_cons. destruct nl_head as [t ->]. destruct (c =? 10); cbn [app]; eauto. Qed.
 
 Lemma plain_len_X b : forall l n, plain_len b l = Ok n ->
@@ -365,14 +396,14 @@ Proof.
   destruct (mem_N c in_scan_plain_scalar_0) eqn:E0.
   - inversion H; subst. split; [|exists [], (c :: l); repeat split; constructor].
     destruct (X_head c l) as [t ->]. cbn [plain_len].
-    destruct (c =? 10) eqn:Ec; [reflexivity | rewrite E0; reflexivity].
+    destruct (c =? 10) eqn:Ec; [destruct Hh as [Eh|Eh]; rewrite Eh; reflexivity | rewrite E0; reflexivity].
   - assert (Hc : c <> 10) by (intros ->; discriminate E0).
     rewrite X_cons. pose proof Hc as Hc'. apply N.eqb_neq in Hc'. rewrite Hc'. cbn [app plain_len]. rewrite E0.
     assert (Hstop : forall v, (if b && (c =? c_colon) then match l with [] => Raise IndexError | n0 :: _ => Ok (mem_N n0 in_scan_plain_scalar_1) end else Ok false) = Ok v ->
                     (if b && (c =? c_colon) then match X l with [] => Raise IndexError | n0 :: _ => Ok (mem_N n0 in_scan_plain_scalar_1) end else Ok false) = Ok v).
     { intros v. destruct (b && (c =? c_colon)); [|auto]. destruct l as [|y l']; [discriminate|].
       destruct (X_head y l') as [t ->]. destruct (y =? 10) eqn:Ey; [|auto].
-      apply N.eqb_eq in Ey. subst y. intros Hv. rewrite <- Hv. reflexivity. }
+      apply N.eqb_eq in Ey. subst y. intros Hv. rewrite <- Hv. destruct Hh as [Eh|Eh]; rewrite Eh; reflexivity. }
     destruct (if b && (c =? c_colon) then match l with [] => Raise IndexError | n0 :: _ => Ok (mem_N n0 in_scan_plain_scalar_1) end else Ok false) as [stop|e] eqn:Es;
       [|discriminate]. rewrite (Hstop stop eq_refl). cbn [bind] in *.
     destruct stop.
@@ -387,7 +418,7 @@ Lemma plain_scalar_f_sim b : forall f1 f2 s s' ch sp, (f1 <= f2)%nat -> R s s' -
 Proof.
   induction f1 as [|f1 IH]; intros f2 s s' ch sp Hf HR; [exact I|]. destruct f2 as [|f2]; [lia|].
   cbn [plain_scalar_f]. speek HR c c' Hc r Er.
-  apply (sim_if_C R1 (fun x => x =? c_hash)); [exact Hc | reflexivity | intros _; apply sim_ok; split; [exact HR | reflexivity] | intros _].
+  apply (sim_if_C R1 (fun x => x =? c_hash)); [exact Hc | hs | intros _; apply sim_ok; split; [exact HR | reflexivity] | intros _].
   destruct (plain_len b (s_rest s)) as [n|e] eqn:En; [|exact I]. cbn [bind].
   pose proof HR as (Hr & _).
   destruct (plain_len_X b _ _ En) as (En' & a & t0 & Ea & Hl & Ha). rewrite Hr, En'. cbn [bind].
@@ -400,7 +431,7 @@ Proof.
   destruct sp2 as [|x sp2].
   - speek H2 c2 c2' Hc2 r2 Er2. apply sim_ok. split; [exact H2 | reflexivity].
   - speek H2 c2 c2' Hc2 r2 Er2. rewrite Hcol2.
-    apply (sim_if_C R1 (fun y => (y =? c_hash) || (s_col s2 <? (if b then 0 else 1)))); [exact Hc2 | reflexivity | |].
+    apply (sim_if_C R1 (fun y => (y =? c_hash) || (s_col s2 <? (if b then 0 else 1)))); [exact Hc2 | hs | |].
     + intros _. apply sim_ok. split; [exact H2 | reflexivity].
     + intros _. apply IH; [lia | exact H2].
 Qed.
@@ -419,9 +450,9 @@ Lemma flow_scalar_breaks_f_sim : forall f1 f2 s s' ch, (f1 <= f2)%nat -> R s s' 
 Proof.
   induction f1 as [|f1 IH]; intros f2 s s' ch Hf HR; [exact I|]. destruct f2 as [|f2]; [lia|].
   cbn [flow_scalar_breaks_f].
-  eapply sim_bind; [apply skip_while_sim; [reflexivity | reflexivity | exact HR]|]. intros s1 s1' H1.
+  eapply sim_bind; [apply skip_while_sim; [reflexivity | hs | exact HR]|]. intros s1 s1' H1.
   speek H1 c c' Hc r Er.
-  apply (sim_if_C R1 (fun x => mem_N x in_scan_flow_scalar_breaks_1)); [exact Hc | reflexivity | |].
+  apply (sim_if_C R1 (fun x => mem_N x in_scan_flow_scalar_breaks_1)); [exact Hc | hs | |].
   - intros _. eapply sim_bind; [apply scan_line_break_sim; exact H1|].
     intros [s2 lb] [s2' lb'] [H2 Elb]. cbn [fst snd] in *. subst lb'. apply IH; [lia | exact H2].
   - intros _. apply sim_ok. split; [exact H1 | reflexivity].
@@ -434,10 +465,10 @@ Lemma scan_flow_scalar_spaces_sim s s' : R s s' -> sim R1 (scan_flow_scalar_spac
 Proof.
   intros HR. unfold scan_flow_scalar_spaces.
   destruct (count_while (fun ch => mem_N ch in_scan_flow_scalar_spaces_0) (s_rest s)) as [n|e] eqn:En; [|exact I]. cbn [bind].
-  destruct (count_sim _ s s' n eq_refl eq_refl HR En) as (En' & Hp & Hfw). rewrite En'. cbn [bind]. rewrite Hp.
+  match type of En with count_while ?p0 _ = _ => destruct (count_sim p0 s s' n eq_refl ltac:(hs) HR En) as (En' & Hp & Hfw) end. rewrite En'. cbn [bind]. rewrite Hp.
   eapply sim_bind; [exact Hfw|]. intros s1 s1' H1. speek H1 c c' Hc r Er.
-  apply (sim_if_C R1 is_end); [exact Hc | reflexivity | intros _; exact I | intros _].
-  apply (sim_if_C R1 (fun x => mem_N x in_scan_flow_scalar_spaces_1)); [exact Hc | reflexivity | |].
+  apply (sim_if_C R1 is_end); [exact Hc | hs | intros _; exact I | intros _].
+  apply (sim_if_C R1 (fun x => mem_N x in_scan_flow_scalar_spaces_1)); [exact Hc | hs | |].
   - intros _. eapply sim_bind; [apply scan_line_break_sim; exact H1|].
     intros [s2 lb] [s2' lb'] [H2 Elb]. cbn [fst snd] in *. subst lb'.
     eapply sim_bind; [apply scan_flow_scalar_breaks_sim; exact H2|].
@@ -465,12 +496,9 @@ Proof.
   speek H1 c c' Hc r1 Er1.
   destruct (C_cases _ _ Hc) as [[-> ->]|[-> Hn]].
   - (* an escaped line break *)
-    replace (assoc 10 ESCAPE_REPLACEMENTS) with (@None str) by reflexivity.
-    replace (assoc 13 ESCAPE_REPLACEMENTS) with (@None str) by reflexivity.
-    replace (assoc 10 ESCAPE_CODES) with (@None N) by reflexivity.
-    replace (assoc 13 ESCAPE_CODES) with (@None N) by reflexivity. ceval.
-    eapply sim_bind; [apply scan_line_break_sim; exact H1|].
-    intros [s2 lb] [s2' lb'] [H2 _]. cbn [fst] in *. apply scan_flow_scalar_breaks_sim. exact H2.
+    ceval.
+    all: eapply sim_bind; [apply scan_line_break_sim; exact H1|];
+      intros [s2 lb] [s2' lb'] [H2 _]; cbn [fst] in *; apply scan_flow_scalar_breaks_sim; exact H2.
   - destruct (assoc c ESCAPE_REPLACEMENTS) as [rep|].
     + eapply sim_bind; [eapply forward_one; eassumption|]. intros s2 s2' H2. apply sim_ok. split; [exact H2 | reflexivity].
     + destruct (assoc c ESCAPE_CODES) as [len|].
@@ -500,7 +528,7 @@ Lemma flow_ns_branch_sim s s' d : R s s' -> sim Ro (flow_ns_branch s d) (flow_ns
 Proof.
   intros HR. pose proof HR as (Hr & _). unfold flow_ns_branch. speek HR c c' Hc r Er.
   destruct (C_cases _ _ Hc) as [[-> ->]|[-> Hn]].
-  - ceval. rewrite !andb_false_r. cbn [bind orb]. apply sim_ok. exact I.
+  - ceval. all: rewrite !andb_false_r; cbn [bind orb]; apply sim_ok; exact I.
   - assert (Hrest : sim Ro
       (if d && (c =? c_squote) || negb d && mem_N c in_scan_flow_scalar_non_spaces_1
        then do s2 <- forward s 1; Ok (Some (s2, [[c]]))
@@ -518,8 +546,8 @@ Proof.
     (* the second quote of a doubled one *)
     unfold peek. rewrite Hr, Er, X_cons. pose proof Hn as Hn'. apply N.eqb_neq in Hn'. rewrite Hn'. cbn [app nth_error].
     destruct r as [|y r']; [exact I|]. destruct (X_head y r') as [t0 Et0]. rewrite Et0. cbn [nth_error bind].
-    assert (Ey : ((if y =? 10 then 13 else y) =? c_squote) = (y =? c_squote)).
-    { destruct (y =? 10) eqn:E10; [|reflexivity]. apply N.eqb_eq in E10. subst y. reflexivity. }
+    assert (Ey : ((if y =? 10 then h else y) =? c_squote) = (y =? c_squote)).
+    { destruct (y =? 10) eqn:E10; [|reflexivity]. apply N.eqb_eq in E10. subst y. hs. }
     rewrite Ey. destruct (y =? c_squote) eqn:Ey2; [|exact Hrest].
     apply N.eqb_eq in Ey2. subst y.
     eapply sim_bind.
@@ -536,7 +564,7 @@ Proof.
   cbn [flow_non_spaces_f].
   destruct (count_while (fun c => negb (mem_N c in_scan_flow_scalar_non_spaces_0)) (s_rest s)) as [n|e] eqn:En; [|exact I].
   cbn [bind].
-  destruct (count_sim _ s s' n eq_refl eq_refl HR En) as (En' & Hp & Hfw). rewrite En'. cbn [bind]. rewrite Hp.
+  match type of En with count_while ?p0 _ = _ => destruct (count_sim p0 s s' n eq_refl ltac:(hs) HR En) as (En' & Hp & Hfw) end. rewrite En'. cbn [bind]. rewrite Hp.
   eapply sim_bind; [exact Hfw|]. intros s1 s1' H1.
   eapply sim_bind; [apply flow_ns_branch_sim; exact H1|]. intros o o' Ho.
   destruct o as [[s2 cs]|], o' as [[s2' cs']|]; cbn [Ro] in Ho; try contradiction.
@@ -548,13 +576,13 @@ Lemma scan_flow_scalar_non_spaces_sim s s' d : R s s' ->
   sim R1 (scan_flow_scalar_non_spaces s d) (scan_flow_scalar_non_spaces s' d).
 Proof. intros HR. apply flow_non_spaces_f_sim; [apply fuel_le; exact HR | exact HR]. Qed.
 
-Lemma flow_scalar_f_sim d q : q <> 10 -> q <> 13 -> forall f1 f2 s s' ch, (f1 <= f2)%nat -> R s s' ->
+Lemma flow_scalar_f_sim d q : q <> 10 -> q <> h -> forall f1 f2 s s' ch, (f1 <= f2)%nat -> R s s' ->
   sim R1 (flow_scalar_f f1 s d q ch) (flow_scalar_f f2 s' d q ch).
 Proof.
   intros Hq1 Hq2. induction f1 as [|f1 IH]; intros f2 s s' ch Hf HR; [exact I|]. destruct f2 as [|f2]; [lia|].
   cbn [flow_scalar_f]. speek HR c c' Hc r Er.
   apply (sim_if_C R1 (fun x => negb (x =? q))); [exact Hc | | |].
-  - assert (H1 : (13 =? q) = false) by (apply N.eqb_neq; congruence).
+  - assert (H1 : (h =? q) = false) by (apply N.eqb_neq; congruence).
     assert (H2 : (10 =? q) = false) by (apply N.eqb_neq; congruence). rewrite H1, H2. reflexivity.
   - intros _. eapply sim_bind; [apply scan_flow_scalar_spaces_sim; exact HR|].
     intros [s1 c1] [s1' c1'] [H1 E1]. cbn [fst snd] in *. subst c1'.
@@ -579,7 +607,7 @@ Lemma scan_flow_scalar_sim s s' style : R s s' -> peek s 0 = Ok style -> style =
 Proof.
   intros HR Hpk Hst. unfold scan_flow_scalar.
   assert (Hs10 : style <> 10) by (destruct Hst; subst; discriminate).
-  assert (Hs13 : style <> 13) by (destruct Hst; subst; discriminate).
+  assert (Hs13 : style <> h) by (destruct Hh as [Eh|Eh]; rewrite Eh; destruct Hst; subst; discriminate).
   speek HR q q' Hc r Er.
   assert (q = style) by (unfold peek in Hpk; rewrite Er in Hpk; cbn in Hpk; congruence). subst q.
   destruct (C_cases _ _ Hc) as [[E _]|[-> _]]; [congruence|].
@@ -614,11 +642,11 @@ Lemma scan_block_scalar_indicators_sim s s' : R s s' ->
 Proof.
   intros HR. unfold scan_block_scalar_indicators. speek HR c c' Hc r Er.
   eapply sim_bind with (Q := R2).
-  { apply (sim_if_C R2 (fun x => mem_N x in_scan_block_scalar_indicators_0)); [exact Hc | reflexivity | |].
+  { apply (sim_if_C R2 (fun x => mem_N x in_scan_block_scalar_indicators_0)); [exact Hc | hs | |].
     - intros E0. pose proof (C_same _ _ (fun x => mem_N x in_scan_block_scalar_indicators_0) Hc eq_refl E0) as ->.
       eapply sim_bind; [eapply forward_one; [exact HR | exact Er | exact (head_ne _ _ _ (fun x => mem_N x in_scan_block_scalar_indicators_0) Er eq_refl E0)]|].
       intros s1 s1' H1. speek H1 c1 c1' Hc1 r1 Er1.
-      apply (sim_if_C R2 (fun x => mem_N x in_scan_block_scalar_indicators_1)); [exact Hc1 | reflexivity | |].
+      apply (sim_if_C R2 (fun x => mem_N x in_scan_block_scalar_indicators_1)); [exact Hc1 | hs | |].
       + intros E1. pose proof (C_same _ _ (fun x => mem_N x in_scan_block_scalar_indicators_1) Hc1 eq_refl E1) as ->.
         destruct (digit_val c1) as [inc|e]; cbn [bind]; [|exact I].
         destruct (inc =? 0); [exact I|].
@@ -626,13 +654,13 @@ Proof.
         intros s2 s2' H2. apply sim_ok; rok.
       + intros _. apply sim_ok; rok.
     - intros _.
-      apply (sim_if_C R2 (fun x => mem_N x in_scan_block_scalar_indicators_2)); [exact Hc | reflexivity | |].
+      apply (sim_if_C R2 (fun x => mem_N x in_scan_block_scalar_indicators_2)); [exact Hc | hs | |].
       + intros E2. pose proof (C_same _ _ (fun x => mem_N x in_scan_block_scalar_indicators_2) Hc eq_refl E2) as ->.
         destruct (digit_val c) as [inc|e]; cbn [bind]; [|exact I].
         destruct (inc =? 0); [exact I|].
         eapply sim_bind; [eapply forward_one; [exact HR | exact Er | exact (head_ne _ _ _ (fun x => mem_N x in_scan_block_scalar_indicators_2) Er eq_refl E2)]|].
         intros s1 s1' H1. speek H1 c1 c1' Hc1 r1 Er1.
-        apply (sim_if_C R2 (fun x => mem_N x in_scan_block_scalar_indicators_3)); [exact Hc1 | reflexivity | |].
+        apply (sim_if_C R2 (fun x => mem_N x in_scan_block_scalar_indicators_3)); [exact Hc1 | hs | |].
         * intros E3. pose proof (C_same _ _ (fun x => mem_N x in_scan_block_scalar_indicators_3) Hc1 eq_refl E3) as ->.
           eapply sim_bind; [eapply forward_one; [exact H1 | exact Er1 | exact (head_ne _ _ _ (fun x => mem_N x in_scan_block_scalar_indicators_3) Er1 eq_refl E3)]|].
           intros s2 s2' H2. apply sim_ok; rok.
@@ -640,7 +668,7 @@ Proof.
       + intros _. apply sim_ok; rok. }
   intros [[s1 ch] inc] [[s1' ch'] inc'] (H1 & E1 & E2). cbn [fst snd] in *. subst ch' inc'.
   speek H1 c1 c1' Hc1 r1 Er1.
-  apply (sim_if_C R2 (fun x => negb (mem_N x in_scan_block_scalar_indicators_4))); [exact Hc1 | reflexivity | intros _; exact I |].
+  apply (sim_if_C R2 (fun x => negb (mem_N x in_scan_block_scalar_indicators_4))); [exact Hc1 | hs | intros _; exact I |].
   intros _. apply sim_ok; rok.
 Qed.
 
@@ -648,14 +676,14 @@ Lemma scan_block_scalar_ignored_line_sim s s' : R s s' ->
   sim R (scan_block_scalar_ignored_line s) (scan_block_scalar_ignored_line s').
 Proof.
   intros HR. unfold scan_block_scalar_ignored_line.
-  eapply sim_bind; [apply skip_while_sim; [reflexivity | reflexivity | exact HR]|]. intros s1 s1' H1.
+  eapply sim_bind; [apply skip_while_sim; [reflexivity | hs | exact HR]|]. intros s1 s1' H1.
   speek H1 c c' Hc r Er.
   eapply sim_bind with (Q := R).
-  { apply (sim_if_C R (fun x => x =? c_hash)); [exact Hc | reflexivity | |].
-    - intros _. apply skip_while_sim; [reflexivity | reflexivity | exact H1].
+  { apply (sim_if_C R (fun x => x =? c_hash)); [exact Hc | hs | |].
+    - intros _. apply skip_while_sim; [reflexivity | hs | exact H1].
     - intros _. apply sim_ok. exact H1. }
   intros s2 s2' H2. speek H2 c2 c2' Hc2 r2 Er2.
-  apply (sim_if_C R (fun x => negb (mem_N x in_scan_block_scalar_ignored_line_1))); [exact Hc2 | reflexivity | intros _; exact I |].
+  apply (sim_if_C R (fun x => negb (mem_N x in_scan_block_scalar_ignored_line_1))); [exact Hc2 | hs | intros _; exact I |].
   intros _. eapply sim_bind; [apply scan_line_break_sim; exact H2|].
   intros [s3 lb] [s3' lb'] [H3 _]. apply sim_ok. exact H3.
 Qed.
@@ -665,8 +693,8 @@ Lemma block_indentation_f_sim : forall f1 f2 s s' ch m, (f1 <= f2)%nat -> R s s'
 Proof.
   induction f1 as [|f1 IH]; intros f2 s s' ch m Hf HR; [exact I|]. destruct f2 as [|f2]; [lia|].
   cbn [block_indentation_f]. speek HR c c' Hc r Er.
-  apply (sim_if_C R2 (fun x => mem_N x in_scan_block_scalar_indentation_0)); [exact Hc | reflexivity | |].
-  - intros _. apply (sim_if_C R2 (fun x => negb (x =? c_space))); [exact Hc | reflexivity | |].
+  apply (sim_if_C R2 (fun x => mem_N x in_scan_block_scalar_indentation_0)); [exact Hc | hs | |].
+  - intros _. apply (sim_if_C R2 (fun x => negb (x =? c_space))); [exact Hc | hs | |].
     + intros _. eapply sim_bind; [apply scan_line_break_sim; exact HR|].
       intros [s1 lb] [s1' lb'] [H1 Elb]. cbn [fst snd] in *. subst lb'. apply IH; [lia | exact H1].
     + intros Es. apply negb_false_iff, N.eqb_eq in Es. subst c.
@@ -682,7 +710,7 @@ Proof.
   cbn [skip_indent_f]. pose proof HR as (_ & Hcol & _). rewrite Hcol.
   destruct (s_col s <? ind); [|apply sim_ok; exact HR].
   speek HR c c' Hc r Er.
-  apply (sim_if_C R (fun x => x =? c_space)); [exact Hc | reflexivity | |].
+  apply (sim_if_C R (fun x => x =? c_space)); [exact Hc | hs | |].
   - intros Es. apply N.eqb_eq in Es. subst c.
     eapply sim_bind; [eapply forward_one; [exact HR | exact Er | discriminate]|]. intros s1 s1' H1. apply IH; [lia | exact H1].
   - intros _. apply sim_ok. exact HR.
@@ -696,7 +724,7 @@ Lemma block_breaks_f_sim ind : forall f1 f2 s s' ch, (f1 <= f2)%nat -> R s s' ->
 Proof.
   induction f1 as [|f1 IH]; intros f2 s s' ch Hf HR; [exact I|]. destruct f2 as [|f2]; [lia|].
   cbn [block_breaks_f]. speek HR c c' Hc r Er.
-  apply (sim_if_C R1 (fun x => mem_N x in_scan_block_scalar_breaks_0)); [exact Hc | reflexivity | |].
+  apply (sim_if_C R1 (fun x => mem_N x in_scan_block_scalar_breaks_0)); [exact Hc | hs | |].
   - intros _. eapply sim_bind; [apply scan_line_break_sim; exact HR|].
     intros [s1 lb] [s1' lb'] [H1 Elb]. cbn [fst snd] in *. subst lb'.
     eapply sim_bind; [apply skip_indent_sim; exact H1|]. intros s2 s2' H2. apply IH; [lia | exact H2].
@@ -719,14 +747,14 @@ Proof.
   intros HR. unfold at_content. pose proof HR as (_ & Hcol & _). rewrite Hcol.
   destruct (s_col s =? ind); [|apply sim_ok; exact I].
   speek HR c c' Hc r Er.
-  apply (sim_if_C Co (fun x => negb (is_end x))); [exact Hc | reflexivity | |]; intros _; apply sim_ok; [exact Hc | exact I].
+  apply (sim_if_C Co (fun x => negb (is_end x))); [exact Hc | hs | |]; intros _; apply sim_ok; [exact Hc | exact I].
 Qed.
 
 Definition R4 {A B D} (x x' : stream * A * B * D) : Prop :=
   R (fst (fst (fst x))) (fst (fst (fst x'))) /\ snd (fst (fst x)) = snd (fst (fst x')) /\
   snd (fst x) = snd (fst x') /\ snd x = snd x'.
 
-Lemma mem_C c c' T : C c c' -> mem_N 13 T = mem_N 10 T -> mem_N c' T = mem_N c T.
+Lemma mem_C c c' T : C c c' -> mem_N h T = mem_N 10 T -> mem_N c' T = mem_N c T.
 Proof. intros Hc H. destruct (C_cases _ _ Hc) as [[-> ->]|[-> _]]; [exact H | reflexivity]. Qed.
 
 Lemma block_lines_f_sim fo ind : forall f1 f2 s s' c c' ch br, (f1 <= f2)%nat -> R s s' -> C c c' ->
@@ -736,7 +764,7 @@ Proof.
   cbn [block_lines_f]. cbv zeta.
   destruct (count_while (fun x => negb (mem_N x in_scan_block_scalar_1)) (s_rest s)) as [n|e] eqn:En; [|exact I].
   cbn [bind].
-  destruct (count_sim _ s s' n eq_refl eq_refl HR En) as (En' & Hp & Hfw). rewrite En'. cbn [bind]. rewrite Hp.
+  match type of En with count_while ?p0 _ = _ => destruct (count_sim p0 s s' n eq_refl ltac:(hs) HR En) as (En' & Hp & Hfw) end. rewrite En'. cbn [bind]. rewrite Hp.
   eapply sim_bind; [exact Hfw|]. intros s1 s1' H1.
   eapply sim_bind; [apply scan_line_break_sim; exact H1|].
   intros [s2 lb] [s2' lb'] [H2 Elb]. cbn [fst snd] in *. subst lb'.
@@ -744,7 +772,7 @@ Proof.
   intros [s3 br3] [s3' br3'] [H3 Ebr]. cbn [fst snd] in *. subst br3'.
   eapply sim_bind; [apply at_content_sim; exact H3|]. intros o o' Ho.
   destruct o as [c3|], o' as [c3'|]; cbn [Co] in Ho; try contradiction.
-  - rewrite (mem_C c c' in_scan_block_scalar_0 Hc eq_refl), (mem_C c3 c3' in_scan_block_scalar_2 Ho eq_refl).
+  - rewrite (mem_C c c' in_scan_block_scalar_0 Hc ltac:(hs)), (mem_C c3 c3' in_scan_block_scalar_2 Ho ltac:(hs)).
     apply IH; [lia | exact H3 | exact Ho].
   - apply sim_ok; rok.
 Qed.
@@ -809,7 +837,7 @@ Lemma simw_yield t t' : tokrel t t' -> simw (fun _ _ => True) (yield t) (yield t
 Proof. intros H. cbn. exists [t'], tt. auto. Qed.
 
 Lemma simw_if_C {A} (Q : A -> A -> Prop) (t : N -> bool) c c' (a b a' b' : wres A) :
-  C c c' -> t 13 = t 10 -> (t c = true -> simw Q a a') -> (t c = false -> simw Q b b') ->
+  C c c' -> t h = t 10 -> (t c = true -> simw Q a a') -> (t c = false -> simw Q b b') ->
   simw Q (if t c then a else b) (if t c' then a' else b').
 Proof.
   intros Hc Ht Ha Hb. destruct (C_cases _ _ Hc) as [[-> ->]|[-> _]].
@@ -834,11 +862,11 @@ Proof.
   intros HR. unfold tok_iter.
   eapply simw_bind; [apply simw_lift, stnt_sim; exact HR|]. intros s1 s1' H1.
   eapply simw_bind; [apply simw_lift, peek0_sim; exact H1|]. intros c c' [Hc [r Er]].
-  apply (simw_if_C Ros is_end); [exact Hc | reflexivity | intros _; apply simw_lift, sim_ok; exact I | intros _].
+  apply (simw_if_C Ros is_end); [exact Hc | hs | intros _; apply simw_lift, sim_ok; exact I | intros _].
   pose proof H1 as (_ & Hcol1 & _). rewrite Hcol1.
   destruct (negb (s_col s1 =? 0)); [exact I|].
   eapply simw_bind with (Q := R1).
-  { apply simw_lift. apply (sim_if_C R1 (fun x => mem_N x in_tokenize_0)); [exact Hc | reflexivity | |].
+  { apply simw_lift. apply (sim_if_C R1 (fun x => mem_N x in_tokenize_0)); [exact Hc | hs | |].
     - intros E0. pose proof (C_same _ _ (fun x => mem_N x in_tokenize_0) Hc eq_refl E0) as ->.
       apply scan_flow_scalar_sim; [exact H1 | eapply peek_of; exact Er | apply quotes; left; exact E0].
     - intros _. apply scan_plain_scalar_sim. exact H1. }
@@ -846,7 +874,7 @@ Proof.
   eapply simw_bind; [apply simw_yield; reflexivity|]. intros _ _ _.
   eapply simw_bind; [apply simw_lift, stnt_sim; exact H2|]. intros s3 s3' H3.
   eapply simw_bind; [apply simw_lift, peek0_sim; exact H3|]. intros c3 c3' [Hc3 [r3 Er3]].
-  apply (simw_if_C Ros (fun x => negb (x =? c_colon))); [exact Hc3 | reflexivity | intros _; exact I | intros E3].
+  apply (simw_if_C Ros (fun x => negb (x =? c_colon))); [exact Hc3 | hs | intros _; exact I | intros E3].
   apply negb_false_iff, N.eqb_eq in E3. subst c3.
   eapply simw_bind; [apply simw_lift; eapply forward_one; [exact H3 | exact Er3 | discriminate]|]. intros s4 s4' H4.
   eapply simw_bind; [apply simw_yield; exact I|]. intros _ _ _.
@@ -855,11 +883,11 @@ Proof.
   pose proof H5 as (_ & Hcol5 & _). rewrite Hcol5.
   destruct (s_col s5 =? 0); [apply simw_lift, sim_ok; exact H5|].
   eapply simw_bind with (Q := R1).
-  { apply simw_lift. apply (sim_if_C R1 (fun x => mem_N x in_tokenize_1)); [exact Hc5 | reflexivity | |].
+  { apply simw_lift. apply (sim_if_C R1 (fun x => mem_N x in_tokenize_1)); [exact Hc5 | hs | |].
     - intros E1. pose proof (C_same _ _ (fun x => mem_N x in_tokenize_1) Hc5 eq_refl E1) as ->.
       apply scan_block_scalar_sim; [exact H5 | eapply peek_of; exact Er5 |].
       exact (head_ne _ _ _ (fun x => mem_N x in_tokenize_1) Er5 eq_refl E1).
-    - intros _. apply (sim_if_C R1 (fun x => mem_N x in_tokenize_2)); [exact Hc5 | reflexivity | |].
+    - intros _. apply (sim_if_C R1 (fun x => mem_N x in_tokenize_2)); [exact Hc5 | hs | |].
       + intros E2. pose proof (C_same _ _ (fun x => mem_N x in_tokenize_2) Hc5 eq_refl E2) as ->.
         apply scan_flow_scalar_sim; [exact H5 | eapply peek_of; exact Er5 | apply quotes; right; exact E2].
       + intros _. apply scan_plain_scalar_sim. exact H5. }
@@ -928,9 +956,12 @@ Qed.
 
 End Brk.
 
-(* the two instances *)
+(* the three instances *)
 Theorem crlf_transparent T r : no_cr T = true -> options_to_items T = Ok r -> options_to_items (crlf T) = Ok r.
-Proof. apply breaks_transparent. left. reflexivity. Qed.
+Proof. apply (breaks_transparent 13 [13; 10]); [left; reflexivity | left; split; reflexivity]. Qed.
 
 Theorem cr_transparent T r : no_cr T = true -> options_to_items T = Ok r -> options_to_items (cr_only T) = Ok r.
-Proof. apply breaks_transparent. right. reflexivity. Qed.
+Proof. apply (breaks_transparent 13 [13]); [left; reflexivity | right; reflexivity]. Qed.
+
+Theorem nel_transparent T r : no_cr T = true -> options_to_items T = Ok r -> options_to_items (nel_only T) = Ok r.
+Proof. apply (breaks_transparent 133 [133]); [right; reflexivity | right; reflexivity]. Qed.
